@@ -972,6 +972,22 @@ func (r *Run) eq(a, b Val) Val {
 			return boolConst(sa.Off == sb.Off)
 		}
 	}
+	if ia, ok := a.(VIface); ok {
+		if ib, ok := b.(VIface); ok {
+			if ia.Dyn == nil || ib.Dyn == nil {
+				return boolConst(ia.Dyn == nil && ib.Dyn == nil)
+			}
+			if !types.Identical(ia.Dyn, ib.Dyn) {
+				return boolConst(false)
+			}
+			return r.eq(ia.V, ib.V)
+		}
+	}
+	if pa, ok := a.(VPtr); ok {
+		if pb, ok := b.(VPtr); ok {
+			return boolConst(pa.Obj == pb.Obj && pa.Path == pb.Path)
+		}
+	}
 	if res, ok := r.w.Eq(a, b); ok {
 		return boolConst(res)
 	}
@@ -1213,6 +1229,19 @@ func (r *Run) SetCell(obj, path string, v Val) {
 	o.order = append(o.order, path)
 }
 
+// GlobalLoad reads a package-level variable (lazily named like any cell).
+func (r *Run) GlobalLoad(name string, t types.Type) Val {
+	if r.reg.Globals == nil {
+		r.reg.Globals = map[string]*Obj{}
+	}
+	o, ok := r.reg.Globals[name]
+	if !ok {
+		o = r.NewObj(name, false)
+		r.reg.Globals[name] = o
+	}
+	return r.load(o, "", t)
+}
+
 // ClearCell forgets a memory cell so that the next read names it lazily.
 func (r *Run) ClearCell(obj, path string) {
 	for _, o := range r.objs {
@@ -1286,6 +1315,8 @@ type MapWorld struct {
 	Atoms map[string]bool
 	// AtomFn is asked when Atoms has no entry.
 	AtomFn func(key string) (bool, bool)
+	// IntFn is asked when Ints has no entry for a symbol.
+	IntFn func(name string) (int64, bool)
 }
 
 func (w *MapWorld) intOf(v Val) (int64, bool) {
@@ -1295,6 +1326,11 @@ func (w *MapWorld) intOf(v Val) (int64, bool) {
 	case VSym:
 		if n, ok := w.Ints[x.Name]; ok {
 			return n + x.Off, true
+		}
+		if w.IntFn != nil {
+			if n, ok := w.IntFn(x.Name); ok {
+				return n + x.Off, true
+			}
 		}
 	case VLin:
 		t := x.Off
